@@ -7,6 +7,7 @@ use crate::{
 use hx_native::{err_class, res_class};
 use star_frame::{
     account_set::{
+        modifiers::{MaybeMut, MaybeSigner},
         sysvar::InstructionsSysvar, AccountSetDecode, AccountSetValidate, ClientAccountSet, CpiAccountSet,
     },
     cpi::{CpiProgramInput, HandleCpiArray},
@@ -364,6 +365,14 @@ plain_set!(S29, S29ClientAccounts { a: AccountInfo, o: Option<InR> });
 plain_set!(S30, S30ClientAccounts { p: Mut<Program<System>>, s: Signer<Sysvar<Rent>> });
 plain_set!(S31, S31ClientAccounts { p: Program<HxSets>, o: Option<AccountInfo>, q: Option<Program<HxSets>> });
 plain_set!(S32, S32ClientAccounts { o: Option<InE>, z: AccountInfo });
+// pass-through wrappers (`MaybeSigner<false, _>`, `MaybeMut<false, _>`) alone and over checking ones
+type NSg<T> = MaybeSigner<false, T>;
+type NMu<T> = MaybeMut<false, T>;
+plain_set!(S33, S33ClientAccounts { a: NSg<AccountInfo>, b: NMu<AccountInfo>, c: NSg<NMu<Mut<Sg>>>, d: Signer<NSg<AccountInfo>>, e: Mut<NMu<Sg>> });
+plain_set!(S34, S34ClientAccounts { a: NSg<Sg> });
+plain_set!(S35, S35ClientAccounts { a: AccountInfo, b: NMu<Mu> });
+plain_set!(S36, S36ClientAccounts { a: Mut<NSg<Sg>>, b: NMu<Signer<Mu>>, c: Signer<NMu<Mu>> });
+plain_set!(S37, S37ClientAccounts { o: Option<NSg<Sg>>, v: [NMu<Mut<Sg>>; 2], r: Rest<NSg<Signer<Mu>>> });
 
 args_set!(V01, V01ClientAccounts, V01Arg { v: Vec<AccountInfo> => (usize, ()) });
 args_set!(V02, V02ClientAccounts, V02Arg { a: Sg => (), v: Vec<Mut<Sg>> => (usize, ()), z: AccountInfo => () });
@@ -384,7 +393,7 @@ registry! {
     (S13, IxS13, ()), (S14, IxS14, ()), (S15, IxS15, ()), (S16, IxS16, ()), (S17, IxS17, ()), (S18, IxS18, ()),
     (S19, IxS19, ()), (S20, IxS20, ()), (S21, IxS21, ()), (S22, IxS22, ()), (S23, IxS23, ()), (S24, IxS24, ()),
     (S25, IxS25, ()), (S26, IxS26, ()), (S27, IxS27, ()), (S28, IxS28, ()), (S29, IxS29, ()), (S30, IxS30, ()),
-    (S31, IxS31, ()), (S32, IxS32, ()),
+    (S31, IxS31, ()), (S32, IxS32, ()), (S33, IxS33, ()), (S34, IxS34, ()), (S35, IxS35, ()), (S36, IxS36, ()), (S37, IxS37, ()),
     (V01, IxV01, V01Arg), (V02, IxV02, V02Arg), (V03, IxV03, V03Arg), (V04, IxV04, V04Arg), (V05, IxV05, V05Arg),
     (V06, IxV06, V06Arg), (V07, IxV07, V07Arg), (V08, IxV08, V08Arg), (V09, IxV09, V09Arg), (V10, IxV10, V10Arg),
     (V11, IxV11, V11Arg), (V12, IxV12, V12Arg),
